@@ -1,1 +1,6 @@
-// hook content for elf (filled in later)
+// Included at the end of /repo/src/elf.rs (cfg koge29_verif): C11/C12 bounded harnesses need the private read_elf.
+#[cfg(kani)]
+#[allow(dead_code, unused_imports)]
+mod verif_elf {
+    include!(concat!(env!("KOGE29_VERIF_DIR"), "/kani/h_elf.rs"));
+}
